@@ -46,7 +46,7 @@ CHECKS = {
    text="seeded histories of register / deregister / load_model_from_file calls on the process-wide registry with real model files in a scratch directory: valid models in three forms, every single-fault mutant of a valid module (all of them are met in every batch), missing / syntactically broken / raising / import-failing files, directories already on sys.path, same file name in another directory, edited-and-reloaded files, either bytecode-flag preset; after every op registry == reference dict with model identity, documented error classes, sys.path (order included) and sys.dont_write_bytecode unchanged, loaded model == the code in that file (outputs on seeded arrays, fit bit-equal to the shipped twin), ancillary seeding incl. NaN.",
    note="the registry and the interpreter's import state are process-global: each run snapshots and restores them; error-class expectations are the harness's reading of the statement (see assumptions in the evidence)"),
  "C19": dict(engine="profile-sim", cat="exploration", ref="DESIGN.md 4.8",
-   text="seeded histories over the profile file as durable state: set / get / restart (all Profile objects dropped, new one on the same file) / get_fit_params / legacy key=value file written from the reference / interactive setup driven by a scripted input() (each prompt answered or skipped, invalid-then-valid answers for the looping prompts) / batch fit on a scratch data folder; reference dict with the documented defaults; every read through a new Profile equals the reference, legacy == JSON values, fit parameters == defaults overridden by exactly the stored entries, stored values == answers (with units), batch fit accepts the profile and statistics.tsv / plots.tif have one row / page per curve with independently recomputed modulus and rating.",
+   text="seeded histories over the profile file as durable state: set / get / restart (all Profile objects dropped, new one on the same file) / get_fit_params / legacy key=value file written from the reference / interactive setup driven by a scripted input() (each prompt answered or skipped, invalid-then-valid answers for the looping prompts) / batch fit on a scratch data folder; reference dict with the documented defaults; every read through a new Profile equals the reference, legacy == JSON values, fit parameters == defaults overridden by exactly the stored entries, stored values == answers (with units), batch fit accepts the profile and statistics.tsv / plots.tif have one row / page per curve with independently recomputed modulus and rating; one directed block per eleven runs repeats the batch fit after the user's training-set directory was regenerated in place.",
    note="PROFILE_PATH is bound at import: each process imports nanite.cli under a private XDG_CONFIG_HOME; answers stay inside each prompt's documented domain (numbers strictly inside parameter bounds); the external iterative model sneddon_spher is left out of the batch fits for cost"),
  "C20": dict(engine="map-sim", cat="exploration", ref="DESIGN.md 4.9",
    text="seeded scratch folders of measurement files (synthetic HDF5 maps with seeded shape, scan order and missing pixels; multi-curve files; recorded JPK curves, maps and csv; files without spring constant with and without innate tip position) loaded through load_group / IndentationGroup / QMap with progress callbacks and metadata overrides, then histories of fit / rate / edit / re-preprocess / refit on the map's curves with get_qmap of the three fit features in between; every load is compared with what afmformats' own loader yields (count, order, enums, class, override applied, refusal rule, callback monotone in [0, 1]); every map is compared pixel by pixel, bit for bit, with the curves' current fit/rating in the stated unit, NaN and warning counts included.",
